@@ -88,48 +88,21 @@ def d2_1(ctx):
         ctx.check(ok, ckey(c.key, "arms-guard"), c.node, "the _setup_message chain reaches RequestPacket._setup_message (guard armed after the first assembly)", "a write request's _setup_message does not reach RequestPacket._setup_message: the assembly guard is never armed")
 
 
-@rule(P, "D2.2", "T-SIB", floor=5)
+@rule(P, "D2.2", "T-WITNESS", floor=5)
 def d2_2(ctx):
-    """Read-modify-write: size field, OR mask and AND mask share one width (the tag type's size); masks start all-zeros / all-ones; set_bit operators."""
-    c = ctx.model.cls(f"{PL}:ReadModifyWriteRequestPacket")
-    sm = c.methods["_setup_message"]
-    L = Layouter(ctx, c.module, c, sm, inline_depth=0)
-    env = {}
-    L.block(list(sm.body), env)
-    v = env.get("self._msg")
-    items = [f for it in (v.items if isinstance(v, ListVal) else []) for f in it if f != ("ref", "self._msg")]
-    facts = {"layout": show(items)}
-    ok_shape = len(items) == 5 and items[0][0] in ("ref", "const") and items[1] == ("ref", "self.request_path") and items[2][0] == "enc" and items[2][1] == "UINT"
-    widths = []
-    masks = []
-    if ok_shape:
-        size_arg = items[2][3]
-        for f in items[3:5]:
-            if f[0] == "cut" and f[1][0] == "enc" and f[1][1] == "ULINT":
-                widths.append(f[2])
-                masks.append(f[1][3])
-            else:
-                ok_shape = False
-    if not ok_shape:
-        ctx.violation(ckey(c.key + "._setup_message", "layout"), sm, f"read-modify-write message is {show(items)}; expected service, path, UINT mask size, ULINT(or)[:size], ULINT(and)[:size]", **facts)
-    else:
-        ctx.check(widths[0] == widths[1] == size_arg, ckey(c.key + "._setup_message", "mask-widths"), sm, f"size field, OR mask and AND mask all use `{size_arg}`",
-                  f"mask size field is `{size_arg}` but the OR mask is cut to `{widths[0]}` and the AND mask to `{widths[1]}`: the AND mask has the wrong length (the controller misreads the request)", size=size_arg, or_width=widths[0], and_width=widths[1], **facts)
-        ctx.check(masks == ["self._or_mask", "self._and_mask"], ckey(c.key + "._setup_message", "mask-order"), sm, "OR mask precedes AND mask", f"masks are sent in the order {masks}; the service expects OR then AND", order=masks)
-        svc = ctx.folder.class_attr(c, "tag_service")
-        ctx.check(svc == b"\x4e", ckey(c.key, "service"), c.node, "service 0x4E", f"read-modify-write uses service {svc!r}")
-    init = c.methods["__init__"]
-    vals = {}
-    for n in walk(init):
-        if isinstance(n, ast.Assign) and attr_path(n.targets[0]) in ("self._and_mask", "self._or_mask", "self._mask_size"):
-            vals[attr_path(n.targets[0])[5:]] = n.value
-    a = ctx.folder.eval(vals.get("_and_mask"), c.module) if "_and_mask" in vals else None
-    o = ctx.folder.eval(vals.get("_or_mask"), c.module) if "_or_mask" in vals else None
-    ctx.check(a == 0xFFFF_FFFF_FFFF_FFFF and o == 0, ckey(c.key + ".__init__", "initial-masks"), init, "AND starts all ones (64 bit), OR starts zero", f"initial masks AND={a!r} OR={o!r}: untouched bits would be modified", and_mask=a, or_mask=o)
-    # mask size = byte size of the tag's integer type (folded on witness tags; a structure has none and is refused)
+    """Read-modify-write: the size field, OR mask and AND mask share one width, the tag type's size; untouched bits keep AND = 1 /
+    OR = 0; a set bit is OR = 1 / AND = 1, a cleared bit OR = 0 / AND = 0; the last write of a bit wins.  Decided on witness
+    packets (bit-write frames of sa/rules/packets.py: six bit sequences over DINT / LINT / DWORD with the frame bytes
+    prescribed by the Logix data-access manual) and on the constructor folded per integer type (mask size = type size).  An
+    earlier form matched the operator spelling of `set_bit` and the slice expressions of `_setup_message` and alarmed when the
+    masks were packed by a helper."""
     from ..miniinterp import fold_object
+    from .packets import _emit
     from .packets import _hook as _packet_hook
 
+    _emit(ctx, {"bit-write", "bit-write-refusals"})
+    c = ctx.model.cls(f"{PL}:ReadModifyWriteRequestPacket")
+    init = c.methods["__init__"]
     sizes = {}
     for tname, want in (("SINT", 1), ("INT", 2), ("DINT", 4), ("LINT", 8), ("DWORD", 4), ("USINT", 1), ("UDINT", 4)):
         k_, o_ = fold_object(ctx, c, [7, "T", {"tag_type": "atomic", "data_type_name": tname, "data_type": tname}, 1, False], {}, _packet_hook)
@@ -139,134 +112,38 @@ def d2_2(ctx):
     else:
         bad = {t: v[1] for t, v in sizes.items() if v[0] != "return" or v[1] != v[2]}
         ctx.check(not bad, ckey(c.key + ".__init__", "mask-size"), init, "mask size = size of the tag's integer type (SINT 1, INT 2, DINT/DWORD 4, LINT 8)", f"mask size deviates from the tag type's size: {bad}")
-    sb = c.methods["set_bit"]
-    bit, val = sb.args.args[1].arg, sb.args.args[2].arg
-    branches = [n for n in sb.body if isinstance(n, ast.If) and atom_name(n.test) == val]
-    good = False
-    facts = {}
-    if len(branches) == 1:
-        def ops(stmts):
-            out = {}
-            for s in stmts:
-                if isinstance(s, ast.AugAssign) and attr_path(s.target) in ("self._or_mask", "self._and_mask"):
-                    out[attr_path(s.target)[6:]] = (type(s.op).__name__, src(s.value).replace(" ", ""))
-            return out
-        t, f = ops(branches[0].body), ops(branches[0].orelse)
-        facts = {"true": t, "false": f}
-        one = f"1<<{bit}"
-        good = t.get("or_mask") == ("BitOr", one) and f.get("and_mask") == ("BitAnd", f"~({one})") and t.get("and_mask", ("BitOr", one)) == ("BitOr", one) and f.get("or_mask", ("BitAnd", f"~({one})")) == ("BitAnd", f"~({one})")
-    ctx.check(good, ckey(c.key + ".set_bit", "operators"), sb, "True: OR |= 1<<bit; False: AND &= ~(1<<bit)", f"set_bit operators changed: {facts}", **{k: str(v) for k, v in facts.items()})
-    dw = [n for n in sb.body if isinstance(n, ast.If) and isinstance(n.test, ast.Compare) and attr_path(n.test.left) == "self.data_type" and ctx.folder.eval(n.test.comparators[0], c.module) == "DWORD"]
-    good = len(dw) == 1 and any(isinstance(s, ast.AugAssign) and isinstance(s.op, ast.Mod) and atom_name(s.target) == bit and ctx.folder.eval(s.value, c.module) == 32 for s in dw[0].body) and sb.body.index(dw[0]) < sb.body.index(branches[0]) if branches else False
-    ctx.check(good, ckey(c.key + ".set_bit", "dword"), sb, "BOOL-array bit index reduced modulo 32 before the masks are touched", "the bit index of a BOOL-array (DWORD) element is not reduced % 32")
 
 
-@rule(P, "D2.3", "T-LAYOUT", floor=4)
+@rule(P, "D2.3", "T-WITNESS", floor=4)
 def d2_3(ctx):
-    """Write Tag = service, path, type, UINT count, data; fragmented adds the UDINT byte offset before the data."""
-    w = ctx.model.cls(f"{PL}:WriteTagRequestPacket")
-    wf = ctx.model.cls(f"{PL}:WriteTagFragmentedRequestPacket")
-    lw = flatten(Layouter(ctx, w.module, w, w.methods["tag_only_message"]).function(w.methods["tag_only_message"]) or [])
-    lf = flatten(Layouter(ctx, wf.module, wf, wf.methods["tag_only_message"]).function(wf.methods["tag_only_message"]) or [])
-    want_w = [("const", b"\x4d"), ("ref", "self.request_path"), ("ref", "self._packed_data_type"), ("enc", "UINT", 2, "self.elements"), ("ref", "self.value")]
-    want_f = [("const", b"\x53"), ("ref", "self.request_path"), ("ref", "self._packed_data_type"), ("enc", "UINT", 2, "self.elements"), ("enc", "UDINT", 4, "self.offset"), ("ref", "self.value")]
-    ctx.check(lw == want_w, ckey(w.key + ".tag_only_message"), w.methods["tag_only_message"], "4D | path | type | UINT count | data", f"write-tag message is {show(lw)}", layout=show(lw))
-    ctx.check(lf == want_f, ckey(wf.key + ".tag_only_message"), wf.methods["tag_only_message"], "53 | path | type | UINT count | UDINT offset | data", f"fragmented write-tag message is {show(lf)}", layout=show(lf))
-    init = w.methods["__init__"]
-    forms = {}
-    for n in walk(init):
-        if isinstance(n, ast.Assign) and attr_path(n.targets[0]) == "self._packed_data_type" and not (isinstance(n.value, ast.Constant) and n.value.value is None):
-            lay = flatten(Layouter(ctx, w.module, w, init).expr(n.value, {}))
-            kind = "struct" if any(f[0] == "const" for f in lay) else "atomic"
-            forms[kind] = lay
-    sp = bytes.fromhex(ctx.spec("services")["structure_type_marker"])
-    s_ok = forms.get("struct") and forms["struct"][0] == ("const", sp) and forms["struct"][1][:3] == ("enc", "UINT", 2) and "structure_handle" in forms["struct"][1][3]
-    a_ok = forms.get("atomic") and len(forms["atomic"]) == 1 and forms["atomic"][0][:3] == ("enc", "UINT", 2) and forms["atomic"][0][3].replace(" ", "") == "DataTypes[self.data_type].code"
-    ctx.check(bool(s_ok and a_ok), ckey(w.key + ".__init__", "type-field"), init, "type = A0 02 + UINT structure handle | UINT elementary code", f"type field forms: {[show(v) for v in forms.values()]}", forms={k: show(v) for k, v in forms.items()})
-    # the fragmented constructor keeps value/offset; from_request passes them in order
-    fr = wf.methods["from_request"]
-    call = [c for c in walk(fr) if isinstance(c, ast.Call) and atom_name(c.func) == "cls"]
-    params = [a.arg for a in wf.methods["__init__"].args.args][1:]
-    good = False
-    if call:
-        args = [src(a).replace(" ", "") for a in call[0].args]
-        good = dict(zip(params, args)).get("offset") == "offset" and dict(zip(params, args)).get("value") in ("valueorrequest.value", "value") and dict(zip(params, args)).get("tag") == "request.tag" and dict(zip(params, args)).get("elements") == "request.elements"
-    ctx.check(good, ckey(wf.key + ".from_request", "args"), fr, "fragment packets carry the given offset and segment for the same tag/elements", "from_request does not forward offset/segment to the fragment packet in the constructor's order")
+    """Write Tag = service, path, type (A0 02 + UINT structure handle | UINT elementary code), UINT count, data; the fragmented
+    service adds the UDINT byte offset before the data; continuation packets carry the given offset and segment for the same
+    tag, path and element count.  Decided on witness packets (write-request / fragment-request frames of
+    sa/rules/packets.py)."""
+    from .packets import _emit
+
+    _emit(ctx, {"write-request", "write-request-refusals", "fragment-request"})
 
 
-@rule(P, "D2.4", "T-TILE", floor=4)
+@rule(P, "D2.4", "T-WITNESS", floor=4)
 def d2_4(ctx):
-    """Write fragments tile the value exactly: value[i:i+s] for i in range(0, len(value), s); offset from 0, += len(segment); a fresh packet per fragment."""
-    fn = ctx.model.func(f"{LX}:LogixDriver._send_write_fragmented")
-    f = fn.node
-    gens = [n for n in walk(f) if isinstance(n, (ast.GeneratorExp, ast.ListComp)) and isinstance(n.elt, ast.Subscript) and isinstance(n.elt.slice, ast.Slice)]
-    good, facts = False, {}
-    seg_size = None
-    if len(gens) == 1:
-        ge = gens[0]
-        gen = ge.generators[0]
-        i = atom_name(gen.target)
-        x = atom_name(ge.elt.value)
-        sl = ge.elt.slice
-        it = gen.iter
-        if isinstance(it, ast.Call) and call_name(it) == "range" and len(it.args) == 3:
-            seg_size = atom_name(it.args[2])
-            up = lin(sl.upper) if sl.upper is not None else None
-            facts = {"slice": src(ge.elt), "range": src(it)}
-            good = ctx.folder.eval(it.args[0], fn.module) == 0 and atom_name(it.args[1]) == f"len({x})" and sl.lower is not None and atom_name(sl.lower) == i and up is not None and up.terms == {i: 1, seg_size: 1} and up.const == 0 and x == "request.value" and not gen.ifs
-    ctx.check(good, ckey(fn, "tiling"), gens[0] if gens else f, "segments = value[i:i+s] for i in range(0, len(value), s)", "the value is not tiled into contiguous non-overlapping segments from offset 0", **facts)
-    from .common import fragment_size_redefinitions
+    """Write fragments tile the value exactly: contiguous segments from offset 0, each fitting the connection next to the
+    request's own overhead, covering the whole value, one packet per segment built from the original request; the write
+    succeeds only if every segment did.  Decided by folding `_send_write_fragmented` on witness values and connection sizes
+    (D4.10).  An earlier form matched the slicing generator and the `offset += len(segment)` statement and alarmed on a
+    `for offset in range(0, len(value), segment_size)` loop, which tiles the same way."""
+    from .driver import d4_10
 
-    for i_, (verdict, node, msg) in enumerate(fragment_size_redefinitions(ctx, fn)):
-        k_ = ckey(fn, f"segment-size-redefined{i_}")
-        if verdict == "ok":
-            ctx.ok(k_, node, msg)
-        elif verdict == "violation":
-            ctx.violation(k_, node, msg)
-        else:
-            ctx.undecided(k_, node, msg)
-    loops = [n for n in walk(f) if isinstance(n, ast.For)]
-    good = False
-    facts = {}
-    if len(loops) == 1:
-        lp = loops[0]
-        seg = atom_name(lp.target)
-        inits = [n for n in walk(f) if isinstance(n, ast.Assign) and atom_name(n.targets[0]) == "offset"]
-        upd = [n for n in walk(lp) if isinstance(n, ast.AugAssign) and atom_name(n.target) == "offset"]
-        mk = [c for c in walk(lp) if isinstance(c, ast.Call) and attr_path(c.func) == "WriteTagFragmentedRequestPacket.from_request"]
-        snd = [c for c in walk(lp) if isinstance(c, ast.Call) and isinstance(c.func, ast.Attribute) and c.func.attr == "send"]
-        facts = {"update": [src(u) for u in upd]}
-        good = (len(inits) == 1 and ctx.folder.eval(inits[0].value, fn.module) == 0 and inits[0].lineno < lp.lineno and len(upd) == 1 and isinstance(upd[0].op, ast.Add) and src(upd[0].value).replace(" ", "") == f"len({seg})"
-                and len(mk) == 1 and [atom_name(a) for a in mk[0].args] == ["self._sequence", "request", "offset", seg] and len(snd) == 1 and mk[0].lineno < upd[0].lineno
-                and atom_name(snd[0].args[0]) == atom_name(getattr(mk[0], "_parent").targets[0]))
-    ctx.check(good, ckey(fn, "offset"), loops[0] if loops else f, "offset starts at 0, each fragment is a fresh from_request(seq, request, offset, segment) and offset += len(segment)", "fragment offsets are not the running byte count of the segments already sent (or the fragment packet is not rebuilt per segment)", **facts)
-    sent_orig = [c for c in walk(f) if isinstance(c, ast.Call) and isinstance(c.func, ast.Attribute) and c.func.attr == "send" and c.args and atom_name(c.args[0]) == "request"]
-    ctx.check(not sent_orig, ckey(fn, "original-not-sent"), f, "the unfragmented original request is never sent", "the original (unfragmented) request is also sent: the data is written twice")
-    ok_resp = any(isinstance(n, ast.If) and isinstance(n.test, ast.Call) and call_name(n.test) == "all" and atom_name(n.test.args[0]) == "responses" for n in walk(f))
-    ctx.check(ok_resp, ckey(fn, "all-fragments"), f, "success requires every fragment response to be truthy", "a failed fragment no longer fails the whole write")
+    d4_10(ctx)
 
 
-@rule(P, "D2.5", "T-BOUND", floor=1)
+@rule(P, "D2.5", "T-WITNESS", floor=1)
 def d2_5(ctx):
-    """Fixed-capacity strings bound their characters to the capacity (slice or raising guard)."""
-    c = ctx.model.cls(f"{CT}:FixedSizeString.FixedSizeString")
-    fn = c.methods["_encode"]
-    p = fn.args.args[1].arg
-    bounded = None
-    for n in walk(fn):
-        # value = value[: cls.size]
-        if isinstance(n, ast.Assign) and atom_name(n.targets[0]) == p and isinstance(n.value, ast.Subscript) and atom_name(n.value.value) == p and isinstance(n.value.slice, ast.Slice) and n.value.slice.lower is None and attr_path(n.value.slice.upper) == "cls.size":
-            bounded = "sliced to cls.size before encoding"
-        if isinstance(n, ast.If):
-            cmpn = cmp_norm(n.test)
-            if cmpn and cmpn[0] == "<=0" and cmpn[1].terms == {f"len({p})": -1, "cls.size": 1} and cmpn[1].const == 1 and any(isinstance(s, ast.Raise) for s in n.body):
-                bounded = "over-long values raise"
-    if bounded is None:
-        # every use of the parameter in the returned expression is a slice to cls.size
-        uses = [x for r in walk(fn) if isinstance(r, ast.Return) for x in walk(r) if isinstance(x, ast.Name) and x.id == p]
-        if uses and all(isinstance(getattr(u, "_parent", None), ast.Subscript) and isinstance(u._parent.slice, ast.Slice) and attr_path(u._parent.slice.upper) == "cls.size" and u._parent.slice.lower is None for u in uses):
-            bounded = "every use is value[:cls.size]"
-    ctx.check(bounded is not None, ckey(c.key + "._encode", "bounded"), fn, f"payload bounded: {bounded}", "an over-long string is encoded in full: more than len_type.size + size bytes are produced, growing the structure image / overwriting the following members")
+    """Fixed-capacity strings bound their characters to the capacity: the encoding is always prefix + capacity bytes.  Decided
+    by folding the generated class on witnesses (D2.15), including a value longer than the capacity."""
+    from .driver import _fixedstring_bounded
+
+    _fixedstring_bounded(ctx)
 
 
 @rule(P, "D2.6", "T-DOM", floor=3)
@@ -385,22 +262,14 @@ def d2_7(ctx):
     ctx.check(good, ckey(w, "fan-out"), w.node, "the packet's result is copied to every merged request id", "the read-modify-write result is not fanned out to all merged requests")
 
 
-@rule(P, "D2.8", "T-SIB", floor=2)
+@rule(P, "D2.8", "T-WITNESS", floor=2)
 def d2_8(ctx):
-    """StructTag: private members are skipped on both sides; members addressed by the same offsets table."""
-    tag = ctx.model.cls(f"{CT}:StructTag.StructTag")
-    e, d = tag.methods["_encode"], tag.methods["_decode"]
-    enc_skip = any(isinstance(n, ast.If) and isinstance(n.test, ast.Compare) and isinstance(n.test.ops[0], ast.In) and attr_path(n.test.comparators[0]) == "cls.private" and attr_path(n.test.left) == "member.name" and any(isinstance(s, ast.Continue) for s in n.body) for n in walk(e))
-    from .common import structtag_visible_only
+    """StructTag: private (host) members are skipped when encoding and filtered when decoding; both sides address each member
+    at its offset.  Decided by folding the generated class on a witness layout with a gap, a private host byte and two alias
+    bits (D6.10); hidden members at nesting depth are D1.10."""
+    from .driver import _structtag_rule
 
-    vis = structtag_visible_only(ctx, tag)
-    dec_skip = bool(vis) and all(ok for ok, _, _ in vis)
-    ctx.check(enc_skip and dec_skip, ckey(tag.key, "private"), tag.node, "private (host) members are skipped when encoding and filtered when decoding", "private member handling differs between encode and decode")
-    eo = any(isinstance(n, ast.Assign) and atom_name(n.targets[0]) == "offset" and atom_name(n.value) == "cls._offsets[member]" for n in walk(e))
-    do = any(isinstance(n, ast.Assign) and atom_name(n.targets[0]) == "offset" and atom_name(n.value) == "cls._offsets[member]" for n in walk(d))
-    loops_e = [n for n in walk(e) if isinstance(n, ast.For) and atom_name(n.iter) == "cls.members"]
-    loops_d = [n for n in walk(d) if isinstance(n, ast.For) and atom_name(n.iter) == "cls.members"]
-    ctx.check(eo and do and len(loops_e) == 1 and len(loops_d) == 1, ckey(tag.key, "offsets"), tag.node, "both sides walk cls.members and address each by cls._offsets[member]", "encode and decode do not address members through the same offsets table")
+    _structtag_rule(ctx)
 
 
 @rule(P, "D2.9", "T-RANGE", floor=2)
@@ -421,11 +290,12 @@ def d2_9(ctx):
         return
     # the width attribute: the one used to cut the mask fields in _setup_message
     width_attr = None
-    for n in walk(rmw.methods["_setup_message"]):
-        if isinstance(n, ast.Subscript) and isinstance(n.slice, ast.Slice) and n.slice.upper is not None and (attr_path(n.slice.upper) or "").startswith("self."):
-            width_attr = attr_path(n.slice.upper)
+    for m_ in rmw.methods.values():  # (the masks may be cut in _setup_message or in a helper of the class)
+        for n in walk(m_):
+            if isinstance(n, ast.Subscript) and isinstance(n.slice, ast.Slice) and n.slice.upper is not None and (attr_path(n.slice.upper) or "").startswith("self."):
+                width_attr = attr_path(n.slice.upper)
     if width_attr is None:
-        ctx.undecided(ckey(rmw.key + ".set_bit", "bit-range"), s, "mask width attribute not found in _setup_message")
+        ctx.undecided(ckey(rmw.key + ".set_bit", "bit-range"), s, "mask width attribute not found in the packet class")
         return
 
     class Sub(ast.NodeTransformer):
